@@ -41,6 +41,7 @@ struct Pool {
 #[derive(Default)]
 struct Spec {
     nf: HashMap<u32, Vec<u32>>,
+    doc: HashMap<u32, Vec<u32>>,
     di: Vec<u32>,
     pools: Vec<Pool>,
     cases: Vec<(String, bool, Req)>,
@@ -61,6 +62,12 @@ fn read_spec() -> Spec {
                 let v: Vec<u32> = it.filter_map(|x| u32::from_str_radix(x, 16).ok()).collect();
                 if v.len() >= 2 {
                     sp.nf.insert(v[0], v[1..].to_vec());
+                }
+            }
+            Some("doc") => {
+                let v: Vec<u32> = it.filter_map(|x| u32::from_str_radix(x, 16).ok()).collect();
+                if v.len() >= 2 {
+                    sp.doc.insert(v[0], v[1..].to_vec());
                 }
             }
             Some("di") => sp.di.extend(it.filter_map(|x| u32::from_str_radix(x, 16).ok())),
@@ -113,6 +120,7 @@ fn make_font(pool: &Pool, with25cc: bool) -> Font {
 
 struct Ctx {
     nf: HashMap<u32, Vec<u32>>,
+    doc: HashMap<u32, Vec<u32>>,
     di: Vec<u32>,
 }
 
@@ -124,6 +132,21 @@ impl Ctx {
         match self.nf.get(&c) {
             Some(v) => out.extend_from_slice(v),
             None => out.push(c),
+        }
+    }
+    /// input side: the documented shaper decomposition first (a part equal to the character itself is terminal)
+    fn push_nf_in(&self, c: u32, use_doc: bool, out: &mut Vec<u32>) {
+        match self.doc.get(&c) {
+            Some(parts) if use_doc => {
+                for p in parts {
+                    if *p == c {
+                        out.push(c);
+                    } else {
+                        self.push_nf(*p, out);
+                    }
+                }
+            }
+            _ => self.push_nf(c, out),
         }
     }
 }
@@ -221,64 +244,85 @@ fn judge(cx: &Ctx, req: &Req, has25cc: bool, out: &[(u32, u32)]) -> Verdict {
             }
         }
     }
-    let mut exp: Vec<u32> = Vec::new();
-    let mut act: Vec<u32> = Vec::new();
-    for (oi, c) in owners.iter().enumerate() {
-        let hi = owners.get(oi + 1).cloned().unwrap_or(u32::MAX);
-        exp.clear();
-        act.clear();
-        for (cp, cl) in &req.text {
-            if *cl >= *c && *cl < hi {
-                cx.push_nf(*cp, &mut exp);
+    let compare = |use_doc: bool| -> (Option<String>, (bool, bool, bool)) {
+        let mut why: Option<String> = None;
+        let mut fl = (false, false, false);
+        let mut exp: Vec<u32> = Vec::new();
+        let mut act: Vec<u32> = Vec::new();
+        for (oi, c) in owners.iter().enumerate() {
+            let hi = owners.get(oi + 1).cloned().unwrap_or(u32::MAX);
+            exp.clear();
+            act.clear();
+            for (cp, cl) in &req.text {
+                if *cl >= *c && *cl < hi {
+                    cx.push_nf_in(*cp, use_doc, &mut exp);
+                }
+            }
+            for (ch, k) in out {
+                if *k == *c {
+                    cx.push_nf(*ch, &mut act);
+                }
+            }
+            exp.sort();
+            act.sort();
+            // multiset differences
+            let mut missing: Vec<u32> = Vec::new();
+            let mut extra: Vec<u32> = Vec::new();
+            let (mut i, mut j) = (0, 0);
+            while i < exp.len() || j < act.len() {
+                if j >= act.len() || (i < exp.len() && exp[i] < act[j]) {
+                    missing.push(exp[i]);
+                    i += 1;
+                } else if i >= exp.len() || act[j] < exp[i] {
+                    extra.push(act[j]);
+                    j += 1;
+                } else {
+                    i += 1;
+                    j += 1;
+                }
+            }
+            let mut spaces = extra.iter().filter(|x| **x == 0x20).count();
+            for m in &missing {
+                if cx.is_di(*m) && remove && !preserve {
+                    fl.0 = true;
+                } else if cx.is_di(*m) && !remove && !preserve && spaces > 0 {
+                    spaces -= 1;
+                    fl.1 = true;
+                } else {
+                    why = Some(format!("cluster-{}-lost-{:X}", c, m));
+                    return (why, fl);
+                }
+            }
+            let hidden_spaces = extra.iter().filter(|x| **x == 0x20).count() - spaces;
+            let mut skip = hidden_spaces;
+            for x in &extra {
+                if *x == 0x20 && skip > 0 {
+                    skip -= 1;
+                } else if *x == 0x25CC && dotted_ok {
+                    fl.2 = true;
+                } else {
+                    why = Some(format!("cluster-{}-gained-{:X}", c, x));
+                    return (why, fl);
+                }
             }
         }
-        for (ch, k) in out {
-            if *k == *c {
-                cx.push_nf(*ch, &mut act);
-            }
+        let _ = &mut why;
+        (why, fl)
+    };
+    let (mut why, mut fl) = compare(true);
+    if why.is_some() && !cx.doc.is_empty() {
+        let (w2, f2) = compare(false);
+        if w2.is_none() {
+            why = None;
+            fl = f2;
         }
-        exp.sort();
-        act.sort();
-        // multiset differences
-        let mut missing: Vec<u32> = Vec::new();
-        let mut extra: Vec<u32> = Vec::new();
-        let (mut i, mut j) = (0, 0);
-        while i < exp.len() || j < act.len() {
-            if j >= act.len() || (i < exp.len() && exp[i] < act[j]) {
-                missing.push(exp[i]);
-                i += 1;
-            } else if i >= exp.len() || act[j] < exp[i] {
-                extra.push(act[j]);
-                j += 1;
-            } else {
-                i += 1;
-                j += 1;
-            }
-        }
-        let mut spaces = extra.iter().filter(|x| **x == 0x20).count();
-        for m in &missing {
-            if cx.is_di(*m) && remove && !preserve {
-                v.removed = true;
-            } else if cx.is_di(*m) && !remove && !preserve && spaces > 0 {
-                spaces -= 1;
-                v.hidden = true;
-            } else {
-                v.why = Some(format!("cluster-{}-lost-{:X}", c, m));
-                return v;
-            }
-        }
-        let hidden_spaces = extra.iter().filter(|x| **x == 0x20).count() - spaces;
-        let mut skip = hidden_spaces;
-        for x in &extra {
-            if *x == 0x20 && skip > 0 {
-                skip -= 1;
-            } else if *x == 0x25CC && dotted_ok {
-                v.dotted = true;
-            } else {
-                v.why = Some(format!("cluster-{}-gained-{:X}", c, x));
-                return v;
-            }
-        }
+    }
+    v.removed |= fl.0;
+    v.hidden = fl.1;
+    v.dotted = fl.2;
+    if why.is_some() {
+        v.why = why;
+        return v;
     }
     // statistics: decomposition / composition / reordering
     let mut inm: Vec<u32> = req.text.iter().map(|(c, _)| *c).collect();
@@ -287,7 +331,7 @@ fn judge(cx: &Ctx, req: &Req, has25cc: bool, out: &[(u32, u32)]) -> Verdict {
         let mut s = Vec::new();
         for c in &inm {
             if !cx.is_di(*c) && *c != 0x25CC && *c != 0x20 {
-                cx.push_nf(*c, &mut s);
+                cx.push_nf_in(*c, true, &mut s);
             }
         }
         s
@@ -319,7 +363,7 @@ fn judge(cx: &Ctx, req: &Req, has25cc: bool, out: &[(u32, u32)]) -> Verdict {
     inm.sort();
     outm.sort();
     for c in &inm {
-        if outm.binary_search(c).is_err() && cx.nf.get(c).map(|x| x.len() > 1).unwrap_or(false) {
+        if outm.binary_search(c).is_err() && (cx.nf.get(c).map(|x| x.len() > 1).unwrap_or(false) || cx.doc.contains_key(c)) {
             v.decomposed = true;
         }
     }
@@ -354,8 +398,8 @@ struct Runner<'a> {
 
 impl<'a> Runner<'a> {
     fn one(&mut self, req: &Req, f25: bool) {
-        let font = &self.fonts[f25 as usize];
-        let face = match Face::from_slice(&font.data, 0) {
+        let data = self.fonts[f25 as usize].data.clone();
+        let face = match Face::from_slice(&data, 0) {
             Some(f) => f,
             None => {
                 self.lines.push(format!("viol pool={} f25={} {} out=- why=font-rejected", self.pool.name, f25 as u8, fmt_req(req)));
@@ -493,7 +537,7 @@ pub fn run(args: &[String]) {
 
 fn one() {
     let sp = read_spec();
-    let cx = Ctx { nf: sp.nf.clone(), di: sp.di.clone() };
+    let cx = Ctx { nf: sp.nf.clone(), doc: sp.doc.clone(), di: sp.di.clone() };
     for (pname, f25, req) in &sp.cases {
         let Some(pool) = sp.pools.iter().find(|p| &p.name == pname) else {
             println!("viol pool={} f25={} {} out=- why=unknown-pool", pname, *f25 as u8, fmt_req(req));
@@ -517,7 +561,7 @@ fn search(args: &[String]) {
     let full_upto = arg_u64(args, "--full-upto", 2) as usize;
     let sample = arg_u64(args, "--sample", 40);
     let threads = arg_u64(args, "--threads", 8).max(1) as usize;
-    let cx = Arc::new(Ctx { nf: sp.nf.clone(), di: sp.di.clone() });
+    let cx = Arc::new(Ctx { nf: sp.nf.clone(), doc: sp.doc.clone(), di: sp.di.clone() });
     let pools = Arc::new(sp.pools.clone());
     let next = Arc::new(std::sync::atomic::AtomicUsize::new(0));
     let mut hs = Vec::new();
